@@ -141,7 +141,9 @@ RULE = ('payloads = 1-6 fragments drawn from control/markup/quote/encoded-word s
         'template / working callable (str, bytes, iterator, wrong type) / failing callable, request line, Referer, User-Agent, '
         'Host, login) under HTTP/1.0 or 1.1; request-header payloads travel raw, as b-word, as q-word (utf-8, iso-8859-1) or as '
         'an undecodable word; log-related sinks also under custom access_log_format strings (atoms o, i, z); response.stream; '
-        'plus unit-level drives of the same payload through 18 units; non-trivial = payload contains a control, markup, quote, '
+        'every sink that takes a value also with the value as a NON-str object whose str() is the payload (exception instance, '
+        'object with __str__, UserString, str subclass); HTTP/1.0 and 1.1 x text outside Latin-1 x every header/cookie/reason '
+        'sink as a fixed cross; plus unit-level drives of the same payload through 22 units; non-trivial = payload contains a control, markup, quote, '
         'backslash or non-ASCII character; distinct = distinct (sink, payload, protocol)')
 
 CTL = set(range(32)) | {127}
@@ -244,6 +246,41 @@ CUSTOM_TEMPLATE_404 = ('<html><body><p>gone: %(message)s</p><p title="t">%(statu
 ERRCALL_TEMPLATE = '<html><body><h3>%(status)s</h3><p>%(message)s</p><pre>%(traceback)s</pre>%(version)s</body></html>'
 
 
+# a value need not be a str: applications hand CherryPy exception instances, lazy-translation objects, str
+# subclasses ... whose str() is the (request-derived) text.  Every sink that takes a value is also tried with these.
+OBJ_KINDS = ['exc', 'obj', 'ustr', 'strsub']
+OBJ_SINKS = ('hv', 'ckval', 'ckattr', 'reason', 'redirect', 'redirect2', 'errmsg', 'errmsg_tb', 'errreason', 'errfail',
+             'nf_raise', 'login', 'resphdr', 'sesscfg', 'errtpl', 'errcall', 'tb_exc', 'allow', 'cdisp')
+
+
+class _TextObject(object):
+    def __init__(self, text):
+        self._t = text
+
+    def __str__(self):
+        return self._t
+
+
+class _StrSub(str):
+    pass
+
+
+def wrap_obj(text, kind):
+    """A non-str (or str-subclass) object whose str() is `text`."""
+    if not isinstance(text, str) or kind is None:
+        return text
+    if kind == 'exc':
+        return ValueError(text)
+    if kind == 'obj':
+        return _TextObject(text)
+    if kind == 'ustr':
+        import collections
+        return collections.UserString(text)
+    if kind == 'strsub':
+        return _StrSub(text)
+    raise common.HarnessError('unknown object kind %r' % kind)
+
+
 def to_wsgi_latin1(p):
     """How a WSGI server hands arbitrary request bytes to the application: UTF-8 octets as Latin-1."""
     return p.encode('utf-8', 'surrogatepass').decode('latin-1')
@@ -293,6 +330,8 @@ def gen_case(rng):
         case['payload2'] = gen_payload(rng)
         case['attr'] = rng.choice(COOKIE_ATTRS)
         case['name'] = rng.choice(HEADER_NAMES)
+    if sink in OBJ_SINKS and rng.random() < 0.2:
+        case['obj'] = rng.choice(OBJ_KINDS)
     if sink in VIA_SINKS:
         case['via'] = rng.choice(VIAS)
     if sink in ('errmsg', 'errreason', 'nf_raise') and rng.random() < 0.3:
@@ -357,6 +396,8 @@ def _get_app():
                 resp.cookie[key][a] = av
         if plan.get('status') is not None:
             resp.status = plan['status']
+        if plan.get('login_obj') is not None:
+            req.login = plan['login_obj']
         if plan.get('stream'):
             resp.stream = True
         if plan.get('echo_cookies'):
@@ -632,6 +673,42 @@ def build_request(case):
         plan['raise'] = ['value', p]
     else:
         raise common.HarnessError('unknown sink %r' % sink)
+    ok = case.get('obj')
+    if ok:
+        def w(x):
+            if isinstance(x, list):
+                return [w(y) for y in x]
+            # only values BUILT from the payload (the payload itself, 'code payload', '/other?payload')
+            derived = isinstance(x, str) and p != '' and (x == p or x.endswith(' ' + p) or x == '/other?' + p)
+            return wrap_obj(x, ok) if derived else x
+        for h in plan.get('headers', []):
+            if h[2] == 's':
+                h[1] = w(h[1])
+        for c in plan.get('cookies', []):
+            c[1] = w(c[1])
+            c[2] = {a: w(av) for a, av in c[2].items()}
+        if 'status' in plan:
+            plan['status'] = w(plan['status'])
+        r = plan.get('raise')
+        if r:
+            if r[0] == 'error':
+                if sink != 'errfail':           # there the message is the harness's own 'M&m'
+                    r[1], r[2] = w(r[1]), w(r[2])
+            else:
+                r[1] = w(r[1])
+        if 'fail_text' in plan:
+            plan['fail_text'] = w(plan['fail_text'])
+        if 'rh' in plan:
+            plan['rh'] = [[n, w(v)] for n, v in plan['rh']]
+        if 'al' in plan:
+            plan['al'] = [w(m) for m in plan['al']]
+        if 'sessinit' in plan:
+            plan['sessinit'] = {k: w(v) for k, v in plan['sessinit'].items()}
+        if 'serve' in plan:
+            plan['serve'] = [w(plan['serve'][0]), plan['serve'][1]]
+        if sink == 'login':
+            env.pop('REMOTE_USER', None)
+            plan['login_obj'] = wrap_obj(p, ok)
     if case.get('pre'):
         plan.setdefault('headers', []).append([case['pre'], p, 's'])
     if case.get('stream'):
@@ -1122,6 +1199,19 @@ def check_wsgi(ctx, case, obs, model_q):
         return
     # ---- model comparison (emitted bytes) -------------------------------------------------------
     if obs['bare']:
+        # the code gave up and sent its last-resort 500: not a break-out (nothing request-derived is on the wire), so no
+        # clause of the statement; but the model must agree that this response could not be emitted
+        texts = [x for kv in obs['src_items'] for x in kv] + obs['morsels']
+        if modelable(*texts):
+            n = 0
+            for k, v in obs['src_items']:
+                if isinstance(v, str):
+                    model_q.append(('hdr %s %s' % (T(k), T(v)), None, ('h', n), cj))
+                    n += 1
+            for m in obs['morsels']:
+                model_q.append(('cookie %s' % T(m), None, ('h', n), cj))
+                n += 1
+            model_q.append((None, None, ('hend_bare', n), cj))
         return
     texts = [obs['src_status']] + [x for kv in obs['src_items'] for x in kv] + obs['morsels'] \
         + [v for v in obs['atoms'].values()]
@@ -1193,6 +1283,9 @@ def expected_message(case, obs):
         return None                      # un-encodable text: the code answers with some other (500) page
     code = int(obs['status'][:3])
     default = httputil.valid_status(code)[2]
+    if case.get('obj') not in (None, 'strsub') and sink in ('errmsg', 'errmsg_tb', 'errtpl', 'errcall', 'errreason'):
+        # a non-str value: the code may show its text (then: escaped, see expected_in_message) or refuse it (500)
+        return None
     if sink in ('errmsg', 'errmsg_tb', 'errtpl', 'errcall'):
         return case['payload'] or default
     if sink == 'tb_exc' and code == 500:
@@ -1210,6 +1303,8 @@ def expected_in_message(case, obs):
         return None
     code = int(obs['status'][:3])
     if sink == 'nf_raise' and code == 404:
+        return case['payload'] or None
+    if case.get('obj') and sink in ('errmsg', 'errmsg_tb', 'errtpl', 'errcall'):
         return case['payload'] or None
     if sink == 'nf_path' and code == 404:
         a = obs['atoms']['r']
@@ -1239,6 +1334,14 @@ def flush_model(ctx, model_q):
                 slot[idx] = [got, None]
             elif kind == 'hv':
                 slot[idx][1] = got
+            elif kind == 'hend_bare':
+                got_all = [slot.get(i) for i in range(idx)]
+                cur.pop(key, None)
+                ctx.compared()
+                if all(isinstance(g, str) and g.startswith('ok ') for g in got_all):
+                    ctx.disagree(cj, 'the last-resort 500 response (none of the response\'s headers sent)',
+                                 'emits %d header tuples: %s' % (idx, ' | '.join(got_all)[:600]),
+                                 'the model emits this response, the code gave up on it')
             elif kind == 'hend':
                 mp = []
                 err = None
@@ -1348,7 +1451,7 @@ def run_unit(kind, p, aux=None):
             hm.protocol = (1, 0)
             f = hm.encode_header_item
         else:
-            f = httputil.HeaderMap.encode_header_item
+            f = httputil.HeaderMap().encode_header_item
         try:
             out = f(p)
         except UnicodeEncodeError:
@@ -1370,7 +1473,7 @@ def run_unit(kind, p, aux=None):
         q.append(('item %s' % T(p), 'ok ' + H(out) if out is not None else 'err:ValueError', 'encode_header_item'))
     elif kind == 'itemb':
         b = p.encode('utf-8')
-        out = httputil.HeaderMap.encode_header_item(b)
+        out = httputil.HeaderMap().encode_header_item(b)
         if ctl_in(out):
             bad.append(('encode_header_item(%r) = %r contains control octets' % (b, out),
                         'header_map_value_control_octet'))
@@ -1441,7 +1544,7 @@ def run_unit(kind, p, aux=None):
         body = resp.collapse_body()
         bad += oracle_redirect_page(body, urls)
         loc = resp.headers['Location']
-        out = httputil.HeaderMap.encode_header_item(loc)
+        out = httputil.HeaderMap().encode_header_item(loc)
         if ctl_in(out):
             bad.append(('Location %r contains control octets' % out, 'header_map_value_control_octet'))
         q.append(('redir %d %s %s' % (status, T(urls[0]), T(urls[1])), 'ok ' + H(body), 'redirect body bytes'))
@@ -1664,6 +1767,19 @@ def run(ctx):
     # HTTP/1.1 without Host (400), HTTP/1.0 without Host (served), each with a payload in the log atoms
     run_wsgi_cases(ctx, [{'kind': 'wsgi', 'sink': 'referer', 'payload': pl, 'proto': pr, 'nohost': True, 'via': 'raw'}
                          for pl in ('x', 'a"\r\nb\\', '<i>') for pr in ('HTTP/1.0', 'HTTP/1.1')])
+    # HTTP/1.0 (and 1.1) x text outside Latin-1 x every sink that ends in a header item
+    cross = []
+    for pr in ('HTTP/1.0', 'HTTP/1.1'):
+        for pl in ('\u8200', 'a\u0100\r\nb'):
+            base = {'kind': 'wsgi', 'payload': pl, 'proto': pr, 'name': 'X-Probe', 'attr': 'path', 'code': 404,
+                    'rstatus': 303, 'via': 'b', 'field': 'domain', 'disp': 'attachment'}
+            for sk in ('hv', 'hn', 'echo', 'ckattr', 'ckval', 'sesspath', 'reason', 'resphdr', 'allow', 'autovary',
+                       'redirect', 'cdisp', 'sesscfg', 'errreason', 'multi'):
+                c = dict(base, sink=sk)
+                if sk == 'multi':
+                    c['payload2'] = pl
+                cross.append(c)
+    run_wsgi_cases(ctx, cross)
     # path_header configured but the header empty after stripping: the cookie path falls back to '/'
     run_wsgi_cases(ctx, [{'kind': 'wsgi', 'sink': 'sesspath', 'payload': ' ', 'proto': 'HTTP/1.1', 'via': 'raw'}])
     ctx.extra['anchored_lines_explained'] = {
